@@ -45,6 +45,26 @@ CCS_MOVE = ("        f.seek(old_extra_lease_offset)\n"
             "        f.write(extra_lease_data)\n"
             "        self._write_extra_lease_offset(f, new_extra_lease_offset)\n")
 
+H_RENEW = ("    def renew(self, new_expire_time):\n"
+           "        # Preserve the HashedLeaseInfo wrapper around the renewed LeaseInfo.\n"
+           "        return attr.assoc(\n"
+           "            self,\n"
+           "            _lease_info=super(HashedLeaseInfo, self).renew(new_expire_time),\n"
+           "        )\n"
+           "\n")
+
+H_IS_RENEW = ("    def is_renew_secret(self, candidate_secret):\n"
+              "        # type: (bytes) -> bool\n"
+              "        \"\"\"\n"
+              "        Hash the candidate secret and compare the result to the stored hashed\n"
+              "        secret.\n"
+              "        \"\"\"\n"
+              "        return super(HashedLeaseInfo, self).is_renew_secret(self._hash(candidate_secret))\n"
+              "\n")
+
+SER_HASH = ("        if isinstance(lease, LeaseInfo):\n"
+            "            # v2 of the immutable schema stores lease secrets hashed.  If\n")
+
 MUTANTS = [
     # ---- C25.1 renew, else add
     M("add-even-when-renewed", MUT, MUT_AOR,
@@ -361,6 +381,35 @@ MUTANTS = [
       "                if lease.is_cancel_secret(cancel_secret):\n                    self._write_lease_record(f, leasenum, blank_lease)\n",
       "            for (slot,lease) in self._enumerate_leases(f):\n                accepting_nodeids.add(lease.nodeid)\n"
       "                matched = lease.is_cancel_secret(cancel_secret)\n                if matched:\n                    self._write_lease_record(f, slot, blank_lease)\n", None),
+    # ---- C25.12 the hashed representation is closed (and C25.5: a deleted override is a violation, not a vanished anchor)
+    M("renew-override-removed-as-redundant", LEASE, H_RENEW, "", ["C25.12"]),
+    M("renew-override-removed-c25-5-reports-too", LEASE, H_RENEW, "", ["C25.5"]),
+    M("renew-override-forwards-by-hand", LEASE, H_RENEW,
+      "    def renew(self, new_expire_time):\n        return self._lease_info.renew(new_expire_time)\n\n", "C25.12"),
+    M("renew-override-copies-the-wrapped-lease", LEASE, H_RENEW,
+      "    def renew(self, new_expire_time):\n        renewed = attr.assoc(self._lease_info, _expiration_time=new_expire_time)\n"
+      "        return renewed\n\n", "C25.12"),
+    M("serializer-duck-types-the-lease", LSCH, SER_HASH, SER_HASH.replace("isinstance(lease, LeaseInfo)", "hasattr(lease, \"cancel_secret\")"), "C25.12"),
+    M("serializer-hashes-both-lease-types", LSCH, SER_HASH, SER_HASH.replace("isinstance(lease, LeaseInfo)", "isinstance(lease, (LeaseInfo, HashedLeaseInfo))"), "C25.12"),
+    M("wrapper-made-a-plain-lease-subclass", LEASE, "class HashedLeaseInfo(proxyForInterface(ILeaseInfo, \"_lease_info\")):",
+      "class HashedLeaseInfo(proxyForInterface(ILeaseInfo, \"_lease_info\"), LeaseInfo):", "C25.12"),
+    M("renewed-record-rebuilt-from-stored-lease", MUT, "                        lease = lease.renew(new_expire_time)\n",
+      "                        lease = LeaseInfo(lease.owner_num, renew_secret, lease.cancel_secret,\n"
+      "                                          new_expire_time, lease.nodeid)\n", "C25.12"),
+    M("is-renew-secret-override-removed", LEASE, H_IS_RENEW, "", "C25.5"),
+    M("benign-renew-builds-new-wrapper", LEASE, H_RENEW,
+      "    def renew(self, new_expire_time):\n        renewed = self._lease_info.renew(new_expire_time)\n"
+      "        return HashedLeaseInfo(renewed, self._hash)\n\n", None),
+    M("benign-renew-evolve-hoisted", LEASE, H_RENEW,
+      "    def renew(self, new_expire_time):\n        renewed = super(HashedLeaseInfo, self).renew(new_expire_time)\n"
+      "        return attr.evolve(self, lease_info=renewed)\n\n", None),
+    M("benign-serializer-tests-for-wrapper", LSCH, SER_HASH, SER_HASH.replace("isinstance(lease, LeaseInfo)", "not isinstance(lease, HashedLeaseInfo)"), None),
+    M("benign-serializer-exact-type-test", LSCH, "        if isinstance(lease, HashedLeaseInfo):\n            return self._to_data(lease)",
+      "        if type(lease) is HashedLeaseInfo:\n            return self._to_data(lease)", None),
+    M("benign-renewed-lease-hoisted", IMM, "                    lease = lease.renew(new_expire_time)\n                    with open(self.home, 'rb+') as f:\n"
+      "                        self._write_lease_record(f, i, lease)\n",
+      "                    renewed = lease.renew(new_expire_time)\n                    with open(self.home, 'rb+') as f:\n"
+      "                        self._write_lease_record(f, i, renewed)\n", None),
     # ---- vanished anchor
     M("vanish-add-or-renew", MUT, "    def add_or_renew_lease(self, available_space, lease_info):",
       "    def add_or_renew_leaseX(self, available_space, lease_info):", "ANALYSIS-ERROR"),
